@@ -1,6 +1,7 @@
 //! Harnesses attached to ffi/rodbus-ffi/src/server.rs: the C-ABI request handler (C18, C19)
 #![allow(unused)]
 use super::*;
+use crate::*;
 use rodbus::{AddressRange, BitIterator, RegisterIterator};
 use std::os::raw::c_void;
 use std::sync::atomic::{AtomicU16, AtomicU32, Ordering::Relaxed};
@@ -107,11 +108,12 @@ fn handler(res: &mut ffi::WriteResult, present: bool) -> ffi::WriteHandler {
 //@ timeout: 900
 //@ fns: rodbus_ffi::server::<RequestHandlerWrapper as RequestHandler>::write_single_coil, write_single_register, ffi::WriteHandler::write_single_coil / write_single_register (generated), helpers::ext::WriteResult::convert_to_result
 //@ bounds: none - every index/value, every WriteResult (success flag x 10 exception enum values x 256 raw codes), callback present or absent
-//@ stubs: the application callback is an extern "C" function returning a solver-chosen WriteResult
+//@ stubs: the application callback is an extern "C" function returning a solver-chosen WriteResult; std RandomState::new = fixed SipHash keys
 /// what the application's write callback returns is what the client receives, and the callback gets exactly the
 /// index and value that were sent
 #[kani::proof]
 #[kani::unwind(4)]
+#[kani::stub(std::hash::RandomState::new, fixed_state)]
 fn c18_write_single_passthrough() {
     let mut res = any_result();
     let present: bool = kani::any();
@@ -149,6 +151,7 @@ fn c18_write_single_passthrough() {
 //@ bounds: 2 registers / 3 coils with symbolic start and values, every WriteResult, callback present or absent
 #[kani::proof]
 #[kani::unwind(6)]
+#[kani::stub(std::hash::RandomState::new, fixed_state)]
 fn c18_write_multiple_passthrough() {
     let mut res = any_result();
     let present: bool = kani::any();
